@@ -3857,6 +3857,8 @@ class Interp:
         v = self.materialize(v, s) if isinstance(v, Obj) else v
         if isinstance(v, Iter):
             return v
+        if isinstance(v, Sym) and type(self.h).take is not Hooks.take:
+            return ScriptedIter(v)           # an iterator that the scenario scripts (a token stream): items come from hooks.take
         seq = self._seq_of(v)
         return Iter(seq) if seq is not None else None
 
@@ -4771,7 +4773,9 @@ class Interp:
             kind = (fval.name if isinstance(fval, M.External) else n.func.id).split('.')[-1]
             seq = args[1]
             src_iter = None
-            if isinstance(seq, (LazyGen, GenObj)) or (isinstance(seq, CountIter) and kind != 'takewhile'):
+            if isinstance(seq, Sym) and self.heap and type(self.h).take is not Hooks.take:
+                seq = ScriptedIter(seq)          # a stream that the scenario scripts
+            if isinstance(seq, (LazyGen, GenObj, ScriptedIter)) or (isinstance(seq, CountIter) and kind != 'takewhile'):
                 return LazyGen(n, seq, {}, self.scope, kind, args[0])
             if isinstance(seq, CountIter) and kind == 'takewhile':
                 src_iter = seq
